@@ -289,6 +289,10 @@ pub fn parsegen(prop: &str, seed: u64, runs: usize) -> Vec<J> {
                         };
                         let t = format!("A B\n{open}{l}{e}{tail}");
                         push(&mut out, prop, &t, None, 0, "error sites x line ends");
+                        if e.is_empty() && !tail.is_empty() {
+                            // ... and the line as the very end of the text
+                            push(&mut out, prop, &format!("A B\n{open}{l}"), None, 0, "error sites x line ends");
+                        }
                     }
                 }
             }
